@@ -353,6 +353,9 @@ func TestReplay(t *testing.T) {
 	s.Rule, s.Assumptions = rule, assumptions
 	defer func() { s.Flush(true) }()
 	s.Replay(func(raw json.RawMessage) *vf.Failure {
+		if f, ok := replayConcurrent(s, raw); ok {
+			return f
+		}
 		var c Case
 		if err := json.Unmarshal(raw, &c); err != nil {
 			return vf.Failf("bad-case", "%v", err)
